@@ -973,5 +973,6 @@ def run(ctx):
     ctx.do(c01.r1_5)
     from . import c20 as _c20
     ctx.do(_c20.r20_1)  # POP3's view of the mailbox is a copy, not the lists another session's expunge edits
+    ctx.do(_c20.r20_8)  # the unqueued POP3 reader validates the index it reads under a running expunge
     for k, v in DISJOINT_EDGES.items():
         ctx.trust(f"frozen instance-disjoint lock edge {k[0]}->{k[1]} in {k[2]}: {v}")
